@@ -147,6 +147,61 @@ def abstract_values(ctx, unit, ops, expr, env):
     return {AbsEval(ops).eval(expr, dict(env))}
 
 
+def callers_of(ctx, target) -> list:
+    """Units of the same module that call the library function / method ``target``."""
+    out = []
+    name = target.qualname.rsplit(".", 1)[-1]
+    for v in target.module.units.values():
+        if v is target or v.is_overload():
+            continue
+        for call in walk_own(v.node):
+            if not isinstance(call, ast.Call):
+                continue
+            f = call.func
+            if not ((isinstance(f, ast.Name) and f.id == name) or (isinstance(f, ast.Attribute) and f.attr == name)):
+                continue
+            try:
+                fv = ctx.vals.expr(v, f, None)
+            except Exception:  # noqa: BLE001
+                continue
+            for a in fv:
+                hit = (a[0] == "libfn" and ctx.pkg.lib_unit(a[1]) is target) or \
+                      (a[0] == "bound" and ctx.vals.find_method(a[1], a[2]) is target)
+                if hit and v not in out:
+                    out.append(v)
+    return out
+
+
+class _LocalSubst(ast.NodeTransformer):
+    def __init__(self, lookup, depth):
+        self.lookup, self.depth = lookup, depth
+
+    def visit_Name(self, node):
+        if isinstance(node.ctx, ast.Load) and self.depth > 0:
+            v = self.lookup(node.id)
+            if v is not None and not any(isinstance(x, (ast.Await, ast.Yield, ast.YieldFrom, ast.NamedExpr)) for x in ast.walk(v)):
+                import copy
+                return _LocalSubst(self.lookup, self.depth - 1).visit(copy.deepcopy(v))
+        return node
+
+    def visit_Lambda(self, node):
+        return node
+
+
+def inline_locals(ctx, unit, cfg, node, expr, depth: int = 4):
+    """A copy of ``expr`` in which every local that has exactly one reaching definition at
+    ``node`` (a pure expression) is replaced by that definition — so a one-liner and the
+    same expression unfolded into named intermediate values look alike."""
+    import copy
+
+    def lookup(name):
+        return uncast(name_value(ctx, unit, cfg, node, name)) if name in _locals else None
+
+    from asl.loader import local_names
+    _locals = set(local_names(unit)) - set(unit.param_names())
+    return _LocalSubst(lookup, depth).visit(copy.deepcopy(expr))
+
+
 def uncast(e):
     """typing.cast(T, x) -> x (casts are no-ops at run time)."""
     while isinstance(e, ast.Call) and norm(e.func) in ("cast", "typing.cast") and len(e.args) == 2:
